@@ -24,6 +24,12 @@ func scenC04(r *Run, job *Job) {
 	case 2:
 		r.ReorderNum, r.ReorderDen = 1, 2
 	}
+	if t.Chance(1, 4) {
+		// a party's poll is descheduled where it suspends itself (between testing its release flag and waiting, or
+		// on its way out of the wait) while the next invocation is dispatched
+		r.MaxHoldTime = 5 * time.Second
+		r.AddHold("ManagedThread).SuspendUnsafe", 2+t.Draw(10), 1+t.Draw(3))
+	}
 	w := r.NewWorld(cfg, job.Seed)
 	e := w.NewEngine()
 	e.Bound = time.Duration(nInv+1) * 310 * time.Second
